@@ -819,8 +819,12 @@ static MMessageField * ImportMMessageField(const char * fieldName, uint32 nameLe
    return NULL;
 }
 
-c_status_t MMUnflattenMessage(MMessage * msg, const void * inBuf, uint32 inputBufferBytes)
+/* Unflattening a sub-Message calls this function recursively, so (nestLevel) (1 for the outermost Message) is there to bound the */
+/* recursion; otherwise a buffer containing a few hundred kilobytes of deeply-nested sub-Messages could overflow our stack.       */
+static c_status_t MMUnflattenMessageAux(MMessage * msg, const void * inBuf, uint32 inputBufferBytes, uint32 nestLevel)
 {
+   if (nestLevel > MUSCLE_MAX_MESSAGE_NESTING_DEPTH) return CB_ERROR;
+
    uint32 readOffset = 0;
    const uint8 * buffer = (const uint8 *) inBuf;
 
@@ -906,7 +910,7 @@ c_status_t MMUnflattenMessage(MMessage * msg, const void * inBuf, uint32 inputBu
                      MMessage * newMsg = MMAllocMessage(0);
                      if (newMsg)
                      {
-                        if (MMUnflattenMessage(newMsg, &buffer[eOffset], entryLen) == CB_NO_ERROR)
+                        if (MMUnflattenMessageAux(newMsg, &buffer[eOffset], entryLen, nestLevel+1) == CB_NO_ERROR)
                         {
                            ret = CB_NO_ERROR;
                            eOffset += entryLen;
@@ -1017,6 +1021,11 @@ c_status_t MMUnflattenMessage(MMessage * msg, const void * inBuf, uint32 inputBu
       readOffset += eLength;
    }
    return CB_NO_ERROR;
+}
+
+c_status_t MMUnflattenMessage(MMessage * msg, const void * inBuf, uint32 inputBufferBytes)
+{
+   return MMUnflattenMessageAux(msg, inBuf, inputBufferBytes, 1);
 }
 
 c_status_t MMMoveField(MMessage * sourceMsg, const char * fieldName, MMessage * destMsg)
